@@ -318,6 +318,37 @@ def _job_groestl(cfg, binp, bits, b, nblocks_target, rng_seed):
     return True, "", "", 2 * len(ops)
 
 
+def _job_single_call(family, cfg, binp, new_arg, b, prefix, N, seed, expect_ctr):
+    """One HUGE `update` call (N bytes in a single slice) on the real code must leave the counter the
+    theorems predict and give the same digest as the same bytes fed in 1 MiB calls (chunking
+    invariance, C08, on the real code at sizes the model cannot execute).
+    Returns (ok, what, detail_text, evaluations)."""
+    header = ["cfg profile " + cclib.profile_of(cfg)]
+    ops = []
+    for slot, how in ((0, "bigupd"), (1, "stream")):
+        ops += ["%s new %d %s" % (family, slot, new_arg), "%s updpat %d %d %d" % (family, slot, prefix, seed + 1),
+                "%s %s %d %d %d" % (family, how, slot, N, seed), "%s getctr %d" % (family, slot),
+                "%s updpat %d 3 9" % (family, slot), "%s fin %d" % (family, slot)]
+    hops = header + ops
+    hout, hinfo = cclib.run_lines(binp, hops, timeout=3600)
+    detail = ["# cfg=%s" % cfg, "# single-call job: harness ops:"] + hops
+    if hout is None or len(hout) != len(hops):
+        return False, "harness did not answer every line (crash?)", "\n".join(detail) + "\n# " + str(hinfo), 0
+    detail += ["# harness output:"] + ["#   " + l for l in hout] + ["# expected counter after the big update: " + expect_ctr]
+    one, many = hout[1:7], hout[7:13]
+    if one[:3] != ["ok", "ok", "ok"]:
+        return False, "%s: a single update of %d bytes did not return ok (%s)" % (family, N, one[2]), "\n".join(detail), 6
+    if many[:3] != ["ok", "ok", "ok"]:
+        return False, "%s: streaming %d bytes failed" % (family, N), "\n".join(detail), 6
+    if one[3] != expect_ctr:
+        return False, "%s: counter after one %d-byte update is %s, exact value is %s" % (family, N, one[3], expect_ctr), "\n".join(detail), 6
+    if many[3] != expect_ctr:
+        return False, "%s: counter after streaming %d bytes is %s, exact value is %s" % (family, N, many[3], expect_ctr), "\n".join(detail), 6
+    if one[4:] != many[4:]:
+        return False, "%s: digest of one %d-byte update differs from the digest of the same bytes in 1 MiB pieces" % (family, N), "\n".join(detail), 6
+    return True, "", "\n".join(detail), 12
+
+
 def extra_C17(pid, tier, seed):
     t0 = time.time()
     thorough = tier == "thorough"
@@ -362,6 +393,31 @@ def extra_C17(pid, tier, seed):
             add("skein-%s %s N=%d" % (variant, cfg, N),
                 (lambda cfg=cfg, binp=binp, variant=variant, nb=nb, N=N, exp=exp, s=rng.below(1000), rs=rng.next():
                  _job_inject("skein", cfg, binp, variant, nb, N, s, rs, exp, True)), N, "Skein " + bname)
+        # ONE update call with more than 2^29 bytes (thorough: more than 2^32 bytes as well): length
+        # arithmetic in narrower integer types inside `update` shows here and nowhere else
+        sizes = [2 ** 29 + 5] + ([2 ** 32 + 5] if thorough else [])
+        for Nbig in sizes:
+            singles = []
+            if thorough or cfg == "std-release":
+                singles += [("blake", str(bits), b, w) for (bits, w, b) in (BLAKE if thorough else BLAKE[1:2])]
+                singles += [("jh", str(n), 64, 0) for n in (JH if thorough else JH[1:2])]
+                singles += [("skein", variant, nb, 0) for (variant, nb) in (SKEIN[:3] if thorough else SKEIN[1:2])]
+            singles += [("groestl", str(bits), b, 0) for (bits, b) in (GROESTL if thorough else GROESTL[1:2])]
+            for (fam, arg, b, w) in singles:
+                prefix = rng.below(b)
+                tot = prefix + Nbig
+                if fam == "blake":
+                    T = 8 * b * (tot // b)
+                    exp = "%d %d" % (T % 2 ** w, T // 2 ** w)
+                elif fam == "jh":
+                    exp = str(tot)
+                elif fam == "skein":
+                    exp = "%d %d" % (b * ((tot - 1) // b), 48 << 56)
+                else:
+                    exp = str(tot // b)
+                add("%s-%s %s single update of %d bytes" % (fam, arg, cfg, Nbig),
+                    (lambda fam=fam, cfg=cfg, binp=binp, arg=arg, b=b, prefix=prefix, Nbig=Nbig, exp=exp, s=rng.below(1000):
+                     _job_single_call(fam, cfg, binp, arg, b, prefix, Nbig, s, exp)), 2 * Nbig, "single update > 2^%d bytes" % (29 if Nbig < 2 ** 32 else 32))
         if thorough:
             # byte counters across 2^32 BYTES for real (4 GiB): JH datalen (one size per configuration), Skein t.0
             n = JH[(seed + ci) % 4]
